@@ -14,8 +14,10 @@ from __future__ import annotations
 
 import hashlib
 import math
+import sys
 from fractions import Fraction
 
+sys.set_int_max_str_digits(0)
 OPS = ("+", "-", "*", "/", "**", "//", "%")
 EXACT_FUNCS = {"max", "min", "floor", "ceiling", "ceil", "abs", "mod", "frac", "sum", "prod"}
 
